@@ -358,6 +358,16 @@ func native(outPath string) {
 	}
 	universe := map[string]interface{}{"nil": nil, "true": true, "int": int64(42), "neg": int64(-7), "flt": 1.5, "whole": 3.0, "str": "héllo", "empty": "", "num": "12", "fnum": "1.5",
 		"list": []interface{}{int64(1), "a", 2.5, nil}, "elist": []interface{}{}, "map": map[interface{}]interface{}{"a": int64(1), int64(2): "b", "c": nil}, "emap": map[interface{}]interface{}{},
+		// keys of different types that print alike, and many keys
+		"mixmap": map[interface{}]interface{}{int64(1): "a", "1": "b", 1.0: "c", true: "d", "true": "e", nil: "f", "<nil>": "g", int32(1): "h"},
+		"bigmap": func() map[interface{}]interface{} {
+			m := map[interface{}]interface{}{}
+			for i := 0; i < 300; i++ {
+				m[int64(i)] = i
+				m[fmt.Sprint(i)] = i
+			}
+			return m
+		}(),
 		"tslice": []int64{1, 2}, "tmap": map[string]int64{"a": 1, "b": 2}, "bytes": []byte("ab"), "ptr": new(int64), "ch": make(chan int64, 2), "fn": func(int64) int64 { return 0 },
 		"struct": struct{ A int }{1}, "i32": int32(5), "u8": uint8(200), "f32": float32(2.5),
 		// named types keep Go's default formatting (their String method where they have one): only a plain []byte is text
